@@ -126,7 +126,7 @@ func buildWorker(race bool) (string, error) {
 	return out, nil
 }
 
-var raceFrameRE = regexp.MustCompile(`^\s+(github\.com/jig/lisp[^\s(]*)\(`)
+var raceFrameRE = regexp.MustCompile(`^\s+(github\.com/jig/lisp\S*?)\(\)\s*$`)
 
 // parseRaceLogs returns one violation per distinct race (deduplicated by the innermost jig/lisp frame of each stack).
 func parseRaceLogs(dir string) (int, []Violation) {
